@@ -2,7 +2,7 @@
 """Markdown table of the seeded changes and which checks report them (from seeded/*/*/checks.json)."""
 import json, os, glob, re
 rows = []
-for d in sorted(glob.glob('/verif/seeded/C*/[ab]')):
+for d in sorted(glob.glob('/verif/seeded/C*/[a-z]')):
     sid = '/'.join(d.split('/')[-2:])
     meta = json.load(open(d + '/meta.json')) if os.path.exists(d + '/meta.json') else {}
     chk = json.load(open(d + '/checks.json')) if os.path.exists(d + '/checks.json') else {}
